@@ -29,6 +29,24 @@
 (*   ReadStart(b)  SCTPConn.Read issued when nothing is available: it      *)
 (*                 stays pending and completes inside a later Feed         *)
 (*                                                                         *)
+(* Receive buffers have an IDENTITY (strengthening after seed C16-f).  A   *)
+(* queued message is a slice of the buffer recvLoop read it into: the queue *)
+(* holds [n, err, slot, ovw] - `slot` names the buffer, `ovw` tells whether *)
+(* that buffer has been written again since (the bytes the reader will get *)
+(* are then those of the later item).  recvCh has capacity Cap; a message   *)
+(* that does not fit is HELD by recvLoop (blocked in its send), which then  *)
+(* reads nothing more from the stream until a reader makes room: the SLOW   *)
+(* READER.  BufMode selects how recvLoop obtains the buffer for its next    *)
+(* stream.Read:                                                            *)
+(*   "fresh"  a new buffer for every receive (slot = index of the receive)  *)
+(*   "ring"   a ring of RingSize recycled buffers whose index advances with *)
+(*            every forwarded message (heartbeats reuse the slot).  Sound   *)
+(*            only if RingSize > Cap + 1 (queue + the held message + the    *)
+(*            one being copied out); "ring" with RingSize <= Cap is the     *)
+(*            deliberately broken instance: it violates                     *)
+(*            ReceiveBufferUnreferenced, StreamFidelity and                 *)
+(*            HeartbeatsNeverSurface once Cap messages wait unread.         *)
+(*                                                                         *)
 (* Mode = "intended": what the property demands - data queued before a     *)
 (*   stream error, and data that arrives together with it, is delivered    *)
 (*   before the error is reported.                                         *)
@@ -37,7 +55,7 @@
 (*   closed flag and the queue with equal priority.  Only used to show     *)
 (*   that the invariants are not vacuous; never a verdict by itself.       *)
 (***************************************************************************)
-EXTENDS Naturals, Sequences, TLC
+EXTENDS Integers, Sequences, TLC
 
 CONSTANTS M,           \* maxMessageSize
           MsgLens,     \* admissible message lengths (subset of 1..M)
@@ -45,12 +63,17 @@ CONSTANTS M,           \* maxMessageSize
           ReadSizes,   \* admissible caller buffer lengths (>= 1; >= M bypasses the buffer)
           MaxItems,    \* bound on the number of source items
           MaxPostErr,  \* reads issued after the error has been reported
-          Mode         \* "intended" | "asimpl"
+          Mode,        \* "intended" | "asimpl"
+          Cap,         \* capacity of recvCh (recvChBufSize)
+          BufMode,     \* "fresh" | "ring": where recvLoop's receive buffers come from
+          RingSize     \* number of recycled buffers when BufMode = "ring"
 
 VARIABLES fed,        \* items released so far
           fedBytes,   \* data bytes released so far
           srcErr,     \* the source produced its error (nothing follows)
-          ch,         \* recvCh: sequence of [n |-> bytes, err |-> BOOLEAN]
+          ch,         \* recvCh: sequence of [n |-> bytes, err |-> BOOLEAN, slot |-> buffer, ovw |-> "no" | "data" | "hb"]
+          held,       \* None, or the message recvLoop is blocked sending because recvCh is full
+          next,       \* "ring": index of the buffer the next stream.Read fills (stays 0 when "fresh")
           closed,     \* hbConn.closed
           bufRem,     \* SCTPConn: readLength - readOffset
           bufErr,     \* SCTPConn: readErr # nil
@@ -61,58 +84,77 @@ VARIABLES fed,        \* items released so far
           obs
 
 None == [none |-> TRUE]
-vars == <<fed, fedBytes, srcErr, ch, closed, bufRem, bufErr, delivered, pending, errSeen, postErr, obs>>
-view == <<fed, fedBytes, srcErr, ch, closed, bufRem, bufErr, delivered, pending, errSeen, postErr>>
+vars == <<fed, fedBytes, srcErr, ch, held, next, closed, bufRem, bufErr, delivered, pending, errSeen, postErr, obs>>
+view == <<fed, fedBytes, srcErr, ch, held, next, closed, bufRem, bufErr, delivered, pending, errSeen, postErr>>
 
 Min(a, b) == IF a < b THEN a ELSE b
 RECURSIVE SumN(_)
 SumN(s) == IF s = <<>> THEN 0 ELSE Head(s).n + SumN(Tail(s))
+HeldN(h) == IF h = None THEN 0 ELSE h.n
 
-Proj(c, br, be, dl, cl) == [chan |-> Len(c), buf |-> br, bufErr |-> (be /\ br > 0), delivered |-> dl, closed |-> cl]
+Proj(c, h, br, be, dl, cl) == [chan |-> Len(c), held |-> (h # None), buf |-> br, bufErr |-> (be /\ br > 0), delivered |-> dl, closed |-> cl]
 
-Init == /\ fed = 0 /\ fedBytes = 0 /\ srcErr = FALSE /\ ch = <<>> /\ closed = FALSE
+Init == /\ fed = 0 /\ fedBytes = 0 /\ srcErr = FALSE /\ ch = <<>> /\ held = None /\ next = 0 /\ closed = FALSE
         /\ bufRem = 0 /\ bufErr = FALSE /\ delivered = 0 /\ pending = 0
         /\ errSeen = FALSE /\ postErr = 0
         /\ obs = [a |-> "Init"]
+
+\* ---- receive buffers -----------------------------------------------------
+\* the buffer recvLoop hands to its next stream.Read
+CurSlot == IF BufMode = "fresh" THEN fed + 1 ELSE next
+\* stream.Read wrote into buffer s: every queued message that is a slice of s now shows the new bytes
+Overwrite(c, s, k) == [i \in 1..Len(c) |-> IF c[i].slot = s THEN [c[i] EXCEPT !.ovw = IF k = "hb" THEN "hb" ELSE "data"] ELSE c[i]]
+\* a reader took a message out of the queue: recvLoop's blocked send (if any) completes, and if what it
+\* held was the stream error it closes the connection and returns
+Refill(c, h) == IF h # None /\ Len(c) < Cap THEN [ch |-> Append(c, h), held |-> None, closes |-> h.err]
+                                          ELSE [ch |-> c, held |-> h, closes |-> FALSE]
 
 \* ---- what the caller-side code computes --------------------------------
 \* A read can complete without waiting for the peer:
 Readable(c, cl, br) == br > 0 \/ Len(c) > 0 \/ cl
 
-\* hbConn.Read into a buffer that can hold any message.  Result <<n, err, ch'>>.
+\* hbConn.Read into a buffer that can hold any message.  Result <<n, err, ch', bytes are the message's own>>.
 \* fromQueue: take the head of the queue; fromClosed: report the closed connection.
-FromQueue(c) == <<Head(c).n, Head(c).err, Tail(c)>>
-FromClosed(c) == <<0, TRUE, c>>
+FromQueue(c) == <<Head(c).n, Head(c).err, Tail(c), Head(c).ovw = "no">>
+FromClosed(c) == <<0, TRUE, c, TRUE>>
 HbReads(c, cl) ==
   IF Mode = "asimpl"
     THEN (IF Len(c) > 0 THEN {FromQueue(c)} ELSE {}) \cup (IF cl THEN {FromClosed(c)} ELSE {})
     ELSE IF Len(c) > 0 THEN {FromQueue(c)} ELSE {FromClosed(c)}
 
-\* SCTPConn.Read(b) on state (c, cl, br, be): set of [n, err, ch, br, be] results
+\* SCTPConn.Read(b) on state (c, cl, br, be): set of [n, err, ch, br, be, ok] results
 ReadResults(b, c, cl, br, be) ==
   IF br > 0
     THEN LET n == Min(b, br) IN
-         {[n |-> n, err |-> (br - n = 0) /\ be, ch |-> c, br |-> br - n, be |-> be]}
+         {[n |-> n, err |-> (br - n = 0) /\ be, ch |-> c, br |-> br - n, be |-> be, ok |-> TRUE]}
     ELSE IF b >= M
       THEN \* bypass the intermediate buffer
-           {[n |-> r[1], err |-> r[2], ch |-> r[3], br |-> 0, be |-> be] : r \in HbReads(c, cl)}
+           {[n |-> r[1], err |-> r[2], ch |-> r[3], br |-> 0, be |-> be, ok |-> r[4]] : r \in HbReads(c, cl)}
       ELSE {LET n == Min(b, r[1]) IN
-            [n |-> n, err |-> (r[1] - n = 0) /\ r[2], ch |-> r[3], br |-> r[1] - n, be |-> r[2]] : r \in HbReads(c, cl)}
+            [n |-> n, err |-> (r[1] - n = 0) /\ r[2], ch |-> r[3], br |-> r[1] - n, be |-> r[2], ok |-> r[4]] : r \in HbReads(c, cl)}
 
-ReadObs(b, r, off) == [n |-> r.n, err |-> r.err, off |-> off]
+\* off: stream position of the first byte returned (-1: not the bytes the peer sent at this position)
+ReadObs(b, r, off) == [n |-> r.n, err |-> r.err, off |-> IF r.ok THEN off ELSE -1]
 
 \* ---- actions -----------------------------------------------------------
-CanFeed == ~srcErr /\ fed < MaxItems
+\* recvLoop sits in stream.Read only while it holds nothing
+CanFeed == ~srcErr /\ fed < MaxItems /\ held = None
 CanRead == pending = 0 /\ Readable(ch, closed, bufRem) /\ (errSeen => postErr < MaxPostErr)
 CanStart == pending = 0 /\ ~Readable(ch, closed, bufRem)
 
-\* effect of one item on the queue / closed flag
+\* effect of one item on the buffers / queue / held message / closed flag
 FeedEffect(k, n) ==
-  CASE k = "hb"  -> [ch |-> ch, closed |-> closed]
-    [] k = "msg" -> [ch |-> Append(ch, [n |-> n, err |-> FALSE]), closed |-> closed]
-    [] k = "err" -> IF Mode = "asimpl"
-                      THEN [ch |-> ch, closed |-> TRUE]                        \* bytes dropped, error not queued
-                      ELSE [ch |-> Append(ch, [n |-> n, err |-> TRUE]), closed |-> TRUE]
+  LET s == CurSlot
+      c0 == IF k = "hb" \/ n > 0 THEN Overwrite(ch, s, k) ELSE ch
+      adv == IF BufMode = "ring" THEN (next + 1) % RingSize ELSE next
+      Put(ent) == IF Len(c0) < Cap
+                    THEN [ch |-> Append(c0, ent), held |-> None, closed |-> (closed \/ ent.err), next |-> adv]
+                    ELSE [ch |-> c0, held |-> ent, closed |-> closed, next |-> adv]    \* the send blocks: slow reader
+  IN CASE k = "hb"  -> [ch |-> c0, held |-> None, closed |-> closed, next |-> next]
+       [] k = "msg" -> Put([n |-> n, err |-> FALSE, slot |-> s, ovw |-> "no"])
+       [] k = "err" -> IF Mode = "asimpl"
+                         THEN [ch |-> c0, held |-> None, closed |-> TRUE, next |-> next]   \* bytes dropped, error not queued
+                         ELSE Put([n |-> n, err |-> TRUE, slot |-> s, ovw |-> "no"])
 
 Feed(k, n) ==
   /\ CanFeed
@@ -124,6 +166,8 @@ Feed(k, n) ==
      /\ fedBytes' = fedBytes + n
      /\ srcErr' = (k = "err")
      /\ closed' = e.closed
+     /\ held' = e.held
+     /\ next' = e.next
      /\ IF pending # 0 /\ Readable(e.ch, e.closed, bufRem)
           THEN \E r \in ReadResults(pending, e.ch, e.closed, bufRem, bufErr) :
                  /\ ch' = r.ch /\ bufRem' = r.br /\ bufErr' = r.be
@@ -131,31 +175,33 @@ Feed(k, n) ==
                  /\ errSeen' = (errSeen \/ r.err)
                  /\ pending' = 0
                  /\ obs' = [a |-> "Feed", k |-> k, n |-> n, rd |-> ReadObs(pending, r, delivered),
-                            st |-> Proj(r.ch, r.br, r.be, delivered + r.n, e.closed)]
+                            st |-> Proj(r.ch, e.held, r.br, r.be, delivered + r.n, e.closed)]
           ELSE /\ ch' = e.ch
                /\ UNCHANGED <<bufRem, bufErr, delivered, errSeen, pending>>
                /\ obs' = [a |-> "Feed", k |-> k, n |-> n, rd |-> None,
-                          st |-> Proj(e.ch, bufRem, bufErr, delivered, e.closed)]
+                          st |-> Proj(e.ch, e.held, bufRem, bufErr, delivered, e.closed)]
   /\ UNCHANGED postErr
 
 Read(b) ==
   /\ CanRead
   /\ b \in ReadSizes
   /\ \E r \in ReadResults(b, ch, closed, bufRem, bufErr) :
-       /\ ch' = r.ch /\ bufRem' = r.br /\ bufErr' = r.be
+       LET rf == Refill(r.ch, held) IN
+       /\ ch' = rf.ch /\ held' = rf.held /\ closed' = (closed \/ rf.closes)
+       /\ bufRem' = r.br /\ bufErr' = r.be
        /\ delivered' = delivered + r.n
        /\ errSeen' = (errSeen \/ r.err)
        /\ postErr' = IF errSeen THEN postErr + 1 ELSE postErr
        /\ obs' = [a |-> "Read", b |-> b, rd |-> ReadObs(b, r, delivered),
-                  st |-> Proj(r.ch, r.br, r.be, delivered + r.n, closed)]
-  /\ UNCHANGED <<fed, fedBytes, srcErr, closed, pending>>
+                  st |-> Proj(rf.ch, rf.held, r.br, r.be, delivered + r.n, closed \/ rf.closes)]
+  /\ UNCHANGED <<fed, fedBytes, srcErr, next, pending>>
 
 ReadStart(b) ==
   /\ CanStart
   /\ b \in ReadSizes
   /\ pending' = b
-  /\ obs' = [a |-> "ReadStart", b |-> b, st |-> Proj(ch, bufRem, bufErr, delivered, closed)]
-  /\ UNCHANGED <<fed, fedBytes, srcErr, ch, closed, bufRem, bufErr, delivered, errSeen, postErr>>
+  /\ obs' = [a |-> "ReadStart", b |-> b, st |-> Proj(ch, held, bufRem, bufErr, delivered, closed)]
+  /\ UNCHANGED <<fed, fedBytes, srcErr, ch, held, next, closed, bufRem, bufErr, delivered, errSeen, postErr>>
 
 Next == \/ Feed("hb", 0)
         \/ \E n \in MsgLens : Feed("msg", n)
@@ -167,15 +213,32 @@ Spec == Init /\ [][Next]_vars
 Terminal == ~CanFeed /\ ~CanRead /\ ~CanStart
 
 \* ------------------------------ properties ------------------------------
+EntryOK(e) == e.n \in 0..M /\ e.err \in BOOLEAN /\ e.slot \in Nat /\ e.ovw \in {"no", "data", "hb"}
 TypeOK == /\ fed \in 0..MaxItems /\ fedBytes \in Nat /\ srcErr \in BOOLEAN /\ closed \in BOOLEAN
           /\ bufRem \in 0..M /\ bufErr \in BOOLEAN /\ delivered \in Nat
           /\ pending \in {0} \cup ReadSizes /\ errSeen \in BOOLEAN
-          /\ \A i \in 1..Len(ch) : ch[i].n \in 0..M /\ ch[i].err \in BOOLEAN
+          /\ \A i \in 1..Len(ch) : EntryOK(ch[i])
+          /\ (held = None \/ EntryOK(held))
+          /\ next \in Nat /\ (BufMode = "ring" => next < RingSize)
 
 \* reads return the concatenation of the peer's messages: every byte released by the source is
-\* delivered, buffered or queued - none is lost, none is invented (heartbeats add nothing)
-StreamFidelity == delivered + bufRem + SumN(ch) = fedBytes
-HeartbeatsNeverSurface == delivered <= fedBytes
+\* delivered, buffered, queued or held - none is lost, none is invented (heartbeats add nothing) - and
+\* every queued message still shows the bytes it was received with
+StreamFidelity == /\ delivered + bufRem + SumN(ch) + HeldN(held) = fedBytes
+                  /\ \A i \in 1..Len(ch) : ch[i].ovw = "no"
+HeartbeatsNeverSurface == /\ delivered <= fedBytes
+                          /\ \A i \in 1..Len(ch) : ch[i].ovw # "hb"
+
+\* the cause, stated on the buffers: what recvLoop is about to read into is not (part of) a message that
+\* still waits to be read, and no two waiting messages share a buffer
+ReceiveBufferUnreferenced ==
+  /\ (held = None /\ ~srcErr) => \A i \in 1..Len(ch) : ch[i].slot # CurSlot
+  /\ \A i, j \in 1..Len(ch) : i < j => ch[i].slot # ch[j].slot
+  /\ held # None => \A i \in 1..Len(ch) : ch[i].slot # held.slot
+
+\* the receive queue is bounded; recvLoop holds a message only while the queue is full
+QueueBounded == Len(ch) <= Cap
+HeldMeansFull == held # None => Len(ch) = Cap
 
 \* a stream error is reported only after the data that came before or with it
 ErrorAfterItsData == errSeen => delivered = fedBytes
@@ -187,7 +250,7 @@ NoSpuriousError == errSeen => srcErr
 ErrorSticky == [][errSeen => (delivered' = delivered /\ (obs'.a = "Read" => obs'.rd.err))]_vars
 
 \* a pending read never coexists with something it could have returned
-PendingMeansEmpty == pending # 0 => ~Readable(ch, closed, bufRem)
+PendingMeansEmpty == pending # 0 => (~Readable(ch, closed, bufRem) /\ held = None)
 
 \* the error is stored only together with the buffered tail it belongs to
 DeferredErrorHasData == (bufErr /\ bufRem > 0) => srcErr
